@@ -48,6 +48,16 @@ EDITS = [
 
 def _edit(arr, k) -> bool:
     """in-place edit; False if numpy refuses (read-only)"""
+    if isinstance(arr, dict):
+        if not arr:
+            return False
+        try:
+            first = next(iter(arr))
+            v = arr.pop(first)
+            arr["__bogus__"] = v
+            return True
+        except TypeError:
+            return False
     a = _raw(arr)
     if not isinstance(a, np.ndarray) or a.size == 0:
         return False
@@ -61,15 +71,14 @@ def _edit(arr, k) -> bool:
 # ---------------------------------------------------------------- snapshots
 def snap_layout(L, twin, probe_rows, sel):
     d = {}
-    d["coords"] = _b(L.coords)
-    d["sorted_coords"] = _b(L.sorted_coords)
-    td = L.traps_dict
-    d["traps_dict"] = (tuple(td.keys()), tuple(_b(v) for v in td.values()))
-    d["number_of_traps"] = L.number_of_traps
-    d["static_hash"] = L.static_hash()
-    d["hash"] = hash(L)
-    d["repr"] = repr(L)
-    d["eq_twin"] = bool(L == twin)
+    d["coords"] = _call(lambda: _b(L.coords))
+    d["sorted_coords"] = _call(lambda: _b(L.sorted_coords))
+    d["traps_dict"] = _call(lambda: (lambda td: (tuple(td.keys()), tuple(_b(v) for v in td.values())))(L.traps_dict))
+    d["number_of_traps"] = _call(lambda: L.number_of_traps)
+    d["static_hash"] = _call(lambda: L.static_hash())
+    d["hash"] = _call(lambda: hash(L))
+    d["repr"] = _call(lambda: repr(L))
+    d["eq_twin"] = _call(lambda: bool(L == twin))
     d["lookup"] = _call(lambda: tuple(L.get_traps_from_coordinates(*probe_rows)))
     d["define_register"] = _call(lambda: tuple(
         (k, _b(v.as_array(detach=True))) for k, v in L.define_register(*sel).qubits.items()))
@@ -78,27 +87,27 @@ def snap_layout(L, twin, probe_rows, sel):
 
 def snap_register(R, twin, layout_twin):
     d = {}
-    d["qubits"] = tuple((k, _b(v.as_array(detach=True))) for k, v in R.qubits.items())
-    d["sorted_coords"] = _b(R.sorted_coords)
-    d["coords_hex_hash"] = R.coords_hex_hash()
-    d["eq_twin"] = bool(R == twin)
-    d["layout_eq"] = bool(R.layout == layout_twin) if R.layout is not None else None
-    d["trap_ids"] = tuple(R._layout_info.trap_ids) if R._layout_info else None
+    d["qubits"] = _call(lambda: tuple((k, _b(v.as_array(detach=True))) for k, v in R.qubits.items()))
+    d["sorted_coords"] = _call(lambda: _b(R.sorted_coords))
+    d["coords_hex_hash"] = _call(lambda: R.coords_hex_hash())
+    d["eq_twin"] = _call(lambda: bool(R == twin))
+    d["layout_eq"] = _call(lambda: bool(R.layout == layout_twin) if R.layout is not None else None)
+    d["trap_ids"] = _call(lambda: tuple(R._layout_info.trap_ids) if R._layout_info else None)
     if R.layout is not None:
-        pos = [np.array(v.as_array(detach=True), dtype=float) for v in R.qubits.values()]
-        d["lookup_in_twin_layout"] = _call(lambda: tuple(layout_twin.get_traps_from_coordinates(*pos)))
+        d["lookup_in_twin_layout"] = _call(lambda: tuple(layout_twin.get_traps_from_coordinates(
+            *[np.array(v.as_array(detach=True), dtype=float) for v in R.qubits.values()])))
     return d
 
 
 def snap_wmap(M, twin, positions):
     d = {}
-    d["sorted_coords"] = _b(M.sorted_coords)
-    d["sorted_weights"] = _b(M.sorted_weights)
-    d["weights"] = tuple(float(w) for w in M.weights)
-    d["trap_coordinates"] = _b(M.trap_coordinates)
-    d["static_hash"] = M.static_hash()
-    d["repr"] = repr(M)
-    d["eq_twin"] = bool(M == twin)
+    d["sorted_coords"] = _call(lambda: _b(M.sorted_coords))
+    d["sorted_weights"] = _call(lambda: _b(M.sorted_weights))
+    d["weights"] = _call(lambda: tuple(float(w) for w in M.weights))
+    d["trap_coordinates"] = _call(lambda: _b(M.trap_coordinates))
+    d["static_hash"] = _call(lambda: M.static_hash())
+    d["repr"] = _call(lambda: repr(M))
+    d["eq_twin"] = _call(lambda: bool(M == twin))
     qs = {f"p{i}": list(p) for i, p in enumerate(positions)}
     d["qubit_weights"] = _call(lambda: tuple(M.get_qubit_weight_map(qs).values()))
     return d
@@ -183,6 +192,7 @@ class History:
                 ("sorted_coords", lambda L: [L.sorted_coords]),
                 ("traps_dict", lambda L: list(L.traps_dict.values())),
                 ("traps_dict[0]", lambda L: [L.traps_dict[0]]),
+                ("traps_dict{}", lambda L: [L.traps_dict]),
                 ("define_register.qubits", lambda L: list(reg_of(L).qubits.values())),
                 ("define_register.sorted_coords", lambda L: [reg_of(L).sorted_coords]),
                 ("define_register.layout.coords", lambda L: [reg_of(L).layout.coords]),
@@ -203,6 +213,8 @@ class History:
 
                 accs = [
                     ("qubits", lambda R: list(R.qubits.values())),
+                    ("qubits{}", lambda R: [R.qubits]),
+                    ("layout.traps_dict{}", lambda R: [R.layout.traps_dict]),
                     ("sorted_coords", lambda R: [R.sorted_coords]),
                     ("layout.coords", lambda R: [R.layout.coords]),
                     ("layout.traps_dict", lambda R: list(R.layout.traps_dict.values())),
@@ -236,10 +248,201 @@ class History:
                 ("sorted_coords", lambda M: [M.sorted_coords]),
                 ("trap_coordinates", lambda M: [M.trap_coordinates]),
                 ("sorted_weights", lambda M: [M.sorted_weights]),
+                ("traps_dict", lambda M: list(M.traps_dict.values())),
+                ("traps_dict{}", lambda M: [M.traps_dict]),
             ]
             self._run("weight-map", accs, mkM, snapM)
+            self.ctor_wmap(c, twinM, positions)
+        if L0 is not None:
+            self.ctor_layout(c, twinL, probe, sel)
         return dict(edits=self.n_edits, refused=self.n_refused)
 
 
 def run(case, bad):
     return History(case, bad).run()
+
+
+# ---------------------------------------------------------------- constructor arguments
+def _flavours(rows):
+    """caller-owned mutable containers holding the same coordinates, each
+    with the edit the caller performs afterwards"""
+    def as_array():
+        a = np.array(rows, dtype=float)
+        return a, (lambda: a.__iadd__(7.25))
+
+    def as_lists():
+        a = [list(map(float, r)) for r in rows]
+
+        def ed():
+            a[0][0] = a[0][0] + 99.5
+            a.append([v + 1234.5 for v in a[-1]])
+        return a, ed
+
+    def as_list_of_arrays():
+        a = [np.array(r, dtype=float) for r in rows]
+        return a, (lambda: [r.__imul__(-2.0) for r in a] and None)
+
+    return [("ndarray", as_array), ("list-of-lists", as_lists), ("list-of-arrays", as_list_of_arrays)]
+
+
+def _ctor(self, kind, argname, builders, snap):
+    """builders: [(flavour, () -> (obj, edit))]; the first builder gives the reference state"""
+    ref = None
+    for flavour, build in builders:
+        for mode in ("before-first-use", "after-use"):
+            try:
+                obj, edit = build()
+            except Exception:  # noqa: BLE001
+                continue
+            if ref is None:
+                try:
+                    ref = snap(build()[0])
+                except Exception:  # noqa: BLE001
+                    return
+            if mode == "after-use":
+                snap(obj)
+            try:
+                edit()
+            except Exception:  # noqa: BLE001
+                continue
+            self.n_edits += 1
+            s1 = snap(obj)
+            if s1 != ref:
+                self.bad(
+                    f"history:ctor-aliasing:{kind}.{argname}:{mode}",
+                    f"{kind} built from a caller-owned {flavour} `{argname}`; after the caller edits that container "
+                    f"in place ({mode} of the {kind}) the {kind} changed its {_diff(ref, s1)}",
+                    dict(flavour=flavour, mode=mode, changed=_diff(ref, s1)),
+                )
+
+
+def _ctor_layout(self, c, twinL, probe, sel):
+    from pulser.register.register_layout import RegisterLayout
+    import pulser
+
+    rows = c["coords"]
+
+    def snapL(L):
+        return snap_layout(L, twinL, probe, sel)
+
+    def mk(fl):
+        def build():
+            arg, edit = fl()
+            return RegisterLayout(arg), edit
+        return build
+
+    _ctor(self, "layout", "trap_coordinates", [(n, mk(f)) for n, f in _flavours(rows)], snapL)
+
+    # arguments of the methods that build registers / maps from the layout
+    n = len(probe)
+    L = RegisterLayout(rows)
+    twinR = _call(lambda: L.define_register(*sel))
+    if twinR[0] != "ok":
+        return
+
+    def snapR(R):
+        return snap_register(R, twinR[1], twinL)
+
+    names = [f"q{i}" for i in range(len(sel))]
+
+    def b_qubit_ids():
+        q = list(names)
+        return L.define_register(*sel, qubit_ids=q), (lambda: (q.reverse(), q.append("zz")))
+
+    def b_build_register():
+        d = dict(zip(names, sel))
+        m = L.make_mappable_register(len(sel))
+
+        def ed():
+            k = next(iter(d))
+            d[k] = (d[k] + 1) % n
+            d["zz"] = 0
+        return m.build_register(d), ed
+
+    def b_direct(cls):
+        def build():
+            pos = {k: np.array(v.as_array(detach=True), dtype=float) for k, v in twinR[1].qubits.items()}
+            ids = list(sel)
+
+            def ed():
+                for v in pos.values():
+                    v += 3.5
+                pos["zz"] = np.zeros(len(probe[0]))
+                ids.reverse()
+                ids.append(0)
+            return cls(pos, layout=L, trap_ids=ids), ed
+        return build
+
+    cls = pulser.Register3D if len(probe[0]) == 3 else pulser.Register
+    _ctor(self, "register", "define_register.qubit_ids", [("list", b_qubit_ids)], snapR)
+    _ctor(self, "register", "build_register.qubits", [("dict", b_build_register)], snapR)
+    _ctor(self, "register", "Register.qubits+trap_ids", [("dict-of-arrays", b_direct(cls))], snapR)
+
+    ldm = {int(t): float(w) for t, w in c["ldm"] if 0 <= t < n and 0 <= w <= 1}
+    if len(ldm) >= 2:
+        twin_map = _call(lambda: L.define_detuning_map(dict(ldm)))
+        if twin_map[0] == "ok":
+            pos = [list(map(float, r)) for r in probe]
+
+            def snapM(M):
+                return snap_wmap(M, twin_map[1], pos)
+
+            def b_ldm():
+                d = dict(ldm)
+
+                def ed():
+                    for k in d:
+                        d[k] = 0.0625
+                    d.pop(next(iter(d)))
+                return L.define_detuning_map(d), ed
+
+            _ctor(self, "weight-map", "define_detuning_map.detuning_weights", [("dict", b_ldm)], snapM)
+
+
+def _ctor_wmap(self, c, twinM, positions):
+    from pulser.register.weight_maps import DetuningMap
+
+    rows, ws = c["wcoords"], [float(w) for w in c["weights"]]
+
+    def snapM(M):
+        return snap_wmap(M, twinM, positions)
+
+    def mkc(fl):
+        def build():
+            arg, edit = fl()
+            return DetuningMap(arg, list(ws)), edit
+        return build
+
+    # reference first: an untouched map from plain lists
+    ref_builder = ("reference", lambda: (DetuningMap([list(r) for r in rows], list(ws)), (lambda: None)))
+    _ctor(self, "weight-map", "trap_coordinates", [ref_builder] + [(n, mkc(f)) for n, f in _flavours(rows)], snapM)
+
+    def w_list():
+        w = list(ws)
+
+        def ed():
+            for i in range(len(w)):
+                w[i] = 0.0625 if w[i] != 0.0625 else 0.5
+        return DetuningMap([list(r) for r in rows], w), ed
+
+    def w_array():
+        w = np.array(ws, dtype=float)
+
+        def ed():
+            w[:] = np.where(w == 0.0625, 0.5, 0.0625)
+        return DetuningMap([list(r) for r in rows], w), ed
+
+    def w_reused():
+        # the caller reuses the list to prepare the next map
+        w = list(ws)
+
+        def ed():
+            w.reverse()
+            w[0] = 0.03125
+        return DetuningMap([list(r) for r in rows], w), ed
+
+    _ctor(self, "weight-map", "weights", [ref_builder, ("list", w_list), ("ndarray", w_array), ("list-reused", w_reused)], snapM)
+
+
+History.ctor_layout = _ctor_layout
+History.ctor_wmap = _ctor_wmap
